@@ -1050,6 +1050,9 @@ func ruleConfigLiterals(c *core.Ctx, rule string, want func(t types.Type) bool) 
 				if whole || len(stored) == 0 {
 					continue
 				}
+				if onlyOwnMethods(al, named) {
+					continue // a value made just to ask one of its own methods something (Config{Name: x}.Validate())
+				}
 				n++
 				fname := core.FuncName(fn)
 				pos := c.P.Pos(al.Pos())
@@ -1125,6 +1128,39 @@ func fromOptionsSection(v ssa.Value, optT types.Type, depth int) bool {
 			for _, r := range *a.Referrers() {
 				if st, ok := r.(*ssa.Store); ok && st.Addr == ssa.Value(a) && fromOptionsSection(st.Val, optT, depth+1) {
 					return true
+				}
+			}
+		case *ssa.FreeVar:
+			// a variable of the enclosing function (rpc := o.ReporterConfig; rpc.X = …) that the closure captured
+			fn := a.Parent()
+			if fn == nil || fn.Parent() == nil {
+				return false
+			}
+			idx := -1
+			for i, fv := range fn.FreeVars {
+				if fv == a {
+					idx = i
+				}
+			}
+			for _, b := range fn.Parent().Blocks {
+				for _, in := range b.Instrs {
+					mc, ok := in.(*ssa.MakeClosure)
+					if !ok || mc.Fn != ssa.Value(fn) || idx < 0 || idx >= len(mc.Bindings) {
+						continue
+					}
+					if cell, ok := mc.Bindings[idx].(*ssa.Alloc); ok && cell.Referrers() != nil {
+						for _, r := range *cell.Referrers() {
+							if st, ok := r.(*ssa.Store); ok && st.Addr == ssa.Value(cell) && fromOptionsSection(st.Val, optT, depth+1) {
+								return true
+							}
+						}
+					}
+					if fv2, ok := mc.Bindings[idx].(*ssa.FreeVar); ok {
+						// captured further out: one more level
+						if fromOptionsSection(&ssa.UnOp{Op: token.MUL, X: fv2}, optT, depth+1) {
+							return true
+						}
+					}
 				}
 			}
 		}
@@ -1323,4 +1359,56 @@ func ruleReporterDateFormat(c *core.Ctx, rule string) {
 		}
 		c.Violate(rule, fname, "date-layout", c.P.Pos(load.Pos()), m, nil)
 	}
+}
+
+// onlyOwnMethods: apart from the stores that fill it, the structure in the cell al is only ever the receiver of
+// methods of its own type — it is handed to no command, stored nowhere and returned to nobody.
+func onlyOwnMethods(al *ssa.Alloc, named *types.Named) bool {
+	isOwn := func(call *ssa.Call, recv ssa.Value) bool {
+		cal := core.Callee(&call.Call)
+		if cal == nil || cal.Signature.Recv() == nil || len(call.Call.Args) == 0 || call.Call.Args[0] != recv {
+			return false
+		}
+		rt := cal.Signature.Recv().Type()
+		if pt, ok := rt.(*types.Pointer); ok {
+			rt = pt.Elem()
+		}
+		if !types.Identical(rt, named) {
+			return false
+		}
+		for _, a := range call.Call.Args[1:] {
+			if a == recv {
+				return false
+			}
+		}
+		return true
+	}
+	calls := 0
+	for _, r := range *al.Referrers() {
+		switch t := r.(type) {
+		case *ssa.FieldAddr, *ssa.DebugRef:
+		case *ssa.UnOp:
+			if t.Referrers() == nil {
+				return false
+			}
+			for _, rr := range *t.Referrers() {
+				call, ok := rr.(*ssa.Call)
+				if !ok || !isOwn(call, t) {
+					if _, isDbg := rr.(*ssa.DebugRef); isDbg {
+						continue
+					}
+					return false
+				}
+				calls++
+			}
+		case *ssa.Call:
+			if !isOwn(t, al) {
+				return false
+			}
+			calls++
+		default:
+			return false
+		}
+	}
+	return calls > 0
 }
